@@ -281,7 +281,7 @@ int sm4_gcm_decrypt_update(SM4_GCM_CTX *ctx, const uint8_t *in, size_t inlen, ui
 		len = ctx->taglen - inlen;
 		memcpy(tmp, ctx->mac + inlen, len);
 		memcpy(tmp + len, in, inlen);
-		memcpy(ctx->mac, tmp, GHASH_SIZE);
+		memcpy(ctx->mac, tmp, ctx->taglen);
 	} else {
 		ghash_update(&ctx->mac_ctx, ctx->mac, ctx->taglen);
 		if (sm4_ctr32_encrypt_update(&ctx->enc_ctx, ctx->mac, ctx->taglen, out, outlen) != 1) {
@@ -297,7 +297,7 @@ int sm4_gcm_decrypt_update(SM4_GCM_CTX *ctx, const uint8_t *in, size_t inlen, ui
 			return -1;
 		}
 		*outlen += len;
-		memcpy(ctx->mac, in + inlen, GHASH_SIZE);
+		memcpy(ctx->mac, in + inlen, ctx->taglen);
 	}
 
 	ctx->encedlen += inlen;
